@@ -538,6 +538,23 @@ def run(ctx: Any, prog: Program) -> None:
         reads = [x for x in walk_no_nested(hs9) if isinstance(x, ast.Name) and x.id == acc and isinstance(x.ctx, ast.Load) and id(x) in in_test9]
         ctx.check('C02.T9', not reads, tk, reads[0] if reads else hs9, f'_handle_string decides on `{acc}`, the text decoded so far (line {reads[0].lineno if reads else 0}): escape_text writes each character without looking at its '
                   'neighbours, so a decoder whose treatment of `\\` depends on what precedes it reads some escaped strings back differently', func='Tokenizer._handle_string', text=f'`{acc}` is only appended to and joined')
+    # T4 (token kind): whatever a quoted string contains, it is a STRING token - every return of the handler is `(Token.STRING, <text>)`
+    for r4 in [x for x in walk_no_nested(hs9) if isinstance(x, ast.Return) and x.value is not None]:
+        v4 = r4.value
+        kind4 = v4.elts[0] if isinstance(v4, ast.Tuple) and len(v4.elts) == 2 else None
+        if kind4 is None:
+            ctx.shape('C02.T4', False, tk, r4, f'_handle_string returns `{U(v4)[:40]}`, not a (Token, text) pair', func='Tokenizer._handle_string', text='the handler returns STRING tokens only')
+            continue
+        ctx.check('C02.T4', (dotted(kind4) or '').split('.')[-1] == 'STRING', tk, r4, f'_handle_string returns `{U(v4)[:60]}`: a quoted string whose text meets the condition above it comes back as another kind of token '
+                  '(and with other text), not as the single STRING token escape_text was written for', func='Tokenizer._handle_string', text='the handler returns STRING tokens only')
+    # T2 (nothing is deleted): escape_text only ever *substitutes* through the table.  A `.sub(<constant>, text)` pass replaces a class of
+    # characters by a fixed string (deleting them when it is empty): two different inputs then give the same output, which no decoder can undo.
+    et9 = tk.func('escape_text')
+    for c9 in [c for c in ast.walk(et9) if isinstance(c, ast.Call) and isinstance(c.func, ast.Attribute) and c.func.attr in ('sub', 'subn') and c.args and isinstance(c.args[0], ast.Constant) and isinstance(c.args[0].value, str)]:
+        ctx.check('C02.T2', False, tk, c9, f'escape_text runs `{U(c9)[:60]}`: every match is replaced by the fixed string {c9.args[0].value!r}, so the characters matched are not in the output any more and cannot come back '
+                  'when the string is tokenized', func='escape_text', text='escape_text deletes nothing')
+    for c9 in [c for c in ast.walk(et9) if isinstance(c, ast.Call) and isinstance(c.func, ast.Attribute) and c.func.attr == 'translate']:
+        ctx.shape('C02.T2', False, tk, c9, f'escape_text runs `{U(c9)[:60]}`: a translation table is not modelled', func='escape_text', text='escape_text deletes nothing')
     # ---- T10: the handler refuses nothing but the end of the input ------------------------------------------------------------------------------
     # every character can stand inside a quoted string (escape_text decides which ones are written raw), so the string handler - and any private
     # helper it calls - raises only where it has just seen that the input ended (`<char> is None`).  A `raise` under any other condition refuses
@@ -779,6 +796,7 @@ def run(ctx: Any, prog: Program) -> None:
 
 
 MUTANTS = [
+    {'id': 'quoted_directive_returned_as_directive', 'file': 'tokenizer.py', 'find': "            if next_char == '\"':\n                return Token.STRING, ''.join(value_chars)", 'replace': "            if next_char == '\"':\n                if value_chars[:1] == ['#']:\n                    return Token.DIRECTIVE, ''.join(value_chars[1:])\n                return Token.STRING, ''.join(value_chars)", 'expect': 'C02.T4', 'refuse_ok': True, 'note': 'round 13'},
     {'id': 'escape_decoding_depends_on_prefix', 'file': 'tokenizer.py', 'find': "            if next_char == '\\\\' and self.allow_escapes:\n                # Escape text\n                escape = self._next_char()", 'replace': "            if next_char == '\\\\' and self.allow_escapes and value_chars[-1:] != [':']:\n                # Escape text\n                escape = self._next_char()", 'expect': 'C02.T9', 'refuse_ok': True, 'note': 'round 12'},
     {'id': 'string_text_normalised_before_return', 'file': 'tokenizer.py', 'find': "            if next_char == '\"':\n                return Token.STRING, ''.join(value_chars)", 'replace': "            if next_char == '\"':\n                return Token.STRING, _compose(''.join(value_chars))", 'extra': [{'file': 'tokenizer.py', 'find': "class BaseTokenizer(abc.ABC):", 'replace': "def _compose(text: str) -> str:\n    if text.isascii():\n        return text\n    import unicodedata\n    return unicodedata.normalize('NFC', text)\n\n\nclass BaseTokenizer(abc.ABC):"}], 'expect': 'C02.T4'},
     {'id': 'long_strings_escaped_by_replace_passes', 'file': 'tokenizer.py', 'find': "    return (ESCAPE_MULTILINE_RE if multiline else ESCAPE_RE).sub(_escape_matcher, text)", 'replace': "    if len(text) < 4096:\n        return (ESCAPE_MULTILINE_RE if multiline else ESCAPE_RE).sub(_escape_matcher, text)\n    unescaped = '?/\\n' if multiline else '?/'\n    for char, escape in ESCAPES_INV.items():\n        if char not in unescaped and char in text:\n            text = text.replace(char, escape)\n    return text", 'expect': 'C02.T2'},
